@@ -69,6 +69,24 @@ func genC06(t *rapid.T) c06Case {
 		c.Profile = appendValidation(c.Profile, "vlong", bigListValidation(rapid.SampledFrom([]int{31, 32, 33, 64, 100, 300}).Draw(t, "longListLen"), "p0"))
 		c.Procs = true
 	}
+	// siblings that print alike but are different rules (a list ["a,b"] next to the list [a, b]; two embedded Rego
+	// checks without a message of their own): whatever order the translator puts them in, it is the same in every process
+	if rapid.IntRange(0, 4).Draw(t, "lookAlikes") == 0 {
+		y := func(s string) *m.Y { return m.YMap().Set("propertyConstraints", m.YMap().Set("ex.p0", m.YMap().Set("in", m.YSeq(m.YStr(s))))) }
+		two := m.YMap().Set("propertyConstraints", m.YMap().Set("ex.p0", m.YMap().Set("in", m.YSeq(m.YStr("a"), m.YStr("b")))))
+		vm := m.YMap()
+		vm.Set("targetClass", m.YStr("ex.Test"))
+		vm.Set(pick(t, []string{"or", "and"}, "lookAlikeConnective"), m.YSeq(y("a,b"), two, y("b"), y("a, b")))
+		c.Profile = appendValidation(c.Profile, "vtwins", vm)
+		vr := m.YMap()
+		vr.Set("targetClass", m.YStr("ex.Test"))
+		vr.Set(pick(t, []string{"and", "or"}, "regoConnective"), m.YSeq(
+			m.YMap().Set("rego", m.YStr("$result = (count(object.get($node, \"http://ex.org/v#p0\", [])) > 0)")),
+			m.YMap().Set("rego", m.YStr("$result = (count(object.get($node, \"http://ex.org/v#p1\", [])) > 0)")),
+			m.YMap().Set("rego", m.YStr("$result = (object.get($node, \"http://ex.org/v#e0\", null) != null)"))))
+		c.Profile = appendValidation(c.Profile, "vregos", vr)
+		c.Procs = true
+	}
 	// process history: the subject relies on a built-in prefix; earlier in the same process a profile with the
 	// same terms bound that name to its own namespace. Fresh processes are the reference.
 	if rapid.IntRange(0, 3).Draw(t, "history") == 0 {
